@@ -325,6 +325,60 @@ func TestVerif(t *testing.T) {
 		return o
 	}
 	r.Bound("root_objects", nroots)
+	// wide objects: many unwanted fields at one level (the plugins keep per-depth scratch lists with a fixed initial
+	// capacity), in front of / behind the listed fields, at depth 0, 1 and 2
+	wideSets := [][]string{{"a.keep", "z"}, {"a.b.c", "z"}, {"a"}, {"a.b.c", "a.keep", "z"}, {"z"}, {"a.b"}}
+	widths := []int{1, 2, 99, 100, 101, 150, 199, 200, 201, 250}
+	if r.Thorough() {
+		widths = append(widths, 3, 50, 98, 102, 128, 256, 300, 399, 400, 401, 1000)
+	}
+	r.Bound("wide_widths", len(widths))
+	wi := 0
+	for _, set := range wideSets {
+		var paths [][]string
+		for _, s := range set {
+			paths = append(paths, parseSel(s))
+		}
+		for _, w := range widths {
+			for level := 0; level < 3; level++ {
+				for _, front := range []bool{true, false} {
+					wi++
+					if !r.Mine(int64(wi)) {
+						continue
+					}
+					junk := func() []Field {
+						var fs []Field
+						for j := 0; j < w; j++ {
+							fs = append(fs, Field{fmt.Sprintf("j%03d", j), N(fmt.Sprint(j))})
+						}
+						return fs
+					}
+					put := func(own []Field, lvl int) []Field {
+						if lvl != level {
+							return own
+						}
+						if front {
+							return append(junk(), own...)
+						}
+						return append(own, junk()...)
+					}
+					bobj := O()
+					bobj.Fields = put([]Field{{"c", N("1")}, {"d", N("2")}}, 2)
+					aobj := O()
+					aobj.Fields = put([]Field{{"keep", N("1")}, {"z", N("2")}, {"b", bobj}, {"q", N("3")}}, 1)
+					root := O()
+					root.Fields = put([]Field{{"a", aobj}, {"z", S("top")}, {"y", N("0")}}, 0)
+					c.check("keep_fields", set, paths, root)
+					c.check("remove_fields", set, paths, root)
+					// the same plugin instance again on a narrow object (scratch lists that grew must not leak into the next event)
+					narrow := O()
+					narrow.Fields = []Field{{"x", N("1")}, {"a", func() *V { o := O(); o.Fields = []Field{{"keep", N("1")}, {"u", N("2")}}; return o }()}, {"z", N("5")}}
+					c.check("keep_fields", set, paths, narrow)
+					c.check("remove_fields", set, paths, narrow)
+				}
+			}
+		}
+	}
 	for si, set := range sets {
 		if !r.Mine(int64(si)) {
 			continue
